@@ -717,10 +717,12 @@ def make_fake_solver_class():
             self._maybe_fail("solve", SolverReturnedUnknownResultError())
             fs = [f for lv in self.levels for f in lv] + list(assumptions or [])
             m = self.environment.formula_manager
-            syms = sorted(set().union(*[f.get_free_variables() for f in fs]) if fs else [], key=lambda s_: s_.symbol_name())
+            syms = sorted(set().union(*[self.environment.fvo.get_free_variables(f) for f in fs]) if fs else [],
+                          key=lambda s_: s_.symbol_name())
             for vals in itertools.product([False, True], repeat=len(syms)):
                 asg = {s_: m.Bool(v) for s_, v in zip(syms, vals)}
-                if all(f.substitute(asg).simplify().is_true() for f in fs):
+                env_ = self.environment
+                if all(env_.simplifier.simplify(env_.substituter.substitute(f, asg)).is_true() for f in fs):
                     return True
             return False
 
